@@ -1,6 +1,10 @@
 package ircserver
 
-import "gopkg.in/sorcix/irc.v2"
+import (
+	"regexp"
+
+	"gopkg.in/sorcix/irc.v2"
+)
 
 // Native variant: the structured messages are recovered by parsing the
 // rendered lines.
@@ -13,4 +17,11 @@ func verifSentMessages(reply *Replyctx) []*irc.Message {
 		}
 	}
 	return out
+}
+
+func verifRegexpEither(sel bool, first, second string) *regexp.Regexp {
+	if sel {
+		return regexp.MustCompile(first)
+	}
+	return regexp.MustCompile(second)
 }
